@@ -850,6 +850,10 @@ class C17Prop(CommProp):
                 cases.append({"id": "r%d" % i, "spec": None, "nodes": [], "edges": [], "calls": calls})
                 continue
             kind = FAMS[(i + r.below(len(FAMS))) % len(FAMS)]
+            if i % 20 == 10:
+                kind = "mring"          # the multigraph ring (Louvain collapses it first) at a fixed rate
+            if i % 20 == 14:
+                kind = "triring"
             nn = 3 + r.below(10)
             if kind == "rand":
                 es = [(a, b) for a in range(nn) for b in range(a + 1, nn) if r.below(5) < 2]
